@@ -46,7 +46,8 @@ KNOWN_TEXT = {
 def run(ctx):
     ctx.cov["rule"] = ("chains of 1..3 sequences of messages drawn from the whole factory (scalars, arrays, strings, invalid sentinels, unknown messages/fields, developer fields "
                        "with descriptions), timestamp patterns {monotone, back inside window, jumps, < DateTimeMin / invalid}, x byte order x header option x local types 0..16 x "
-                       "protocol version x validator option x header size 12/14 x buffer size; non-trivial = encode accepted; distinct by input text")
+                       "protocol version x validator option x header size 12/14 x buffer size; every other chain also written message by message through the stream encoder; chains "
+                       "whose later file uses developer fields declared only in the first file (must be rejected by both encoders); non-trivial = encode accepted; distinct by input text")
     ctx.cov["checker_cmd"] = "coq/build.sh Props/C01.vo Run/RunC01.vo; coqc Props/C01.v; coqc cases_C01_*.v (vm_compute: check_enc, check_dec)"
     ctx.assumptions += ["inputs of the round-trip oracle satisfy wf_input (DESIGN.md C01): value shape agrees with the array flag, one field per number, no empty string in slices",
                         "decoder run with component expansion off for the round trip"]
@@ -66,8 +67,8 @@ def run(ctx):
     h = ctx.harness(["c01", "--seed", ctx.seed, "--tier", ctx.tier])
     if h.rc != 0:
         ctx.broken.append("harness c01 failed: " + getattr(h, "stderr", "")[-300:])
-    enc, dec = h.lines.get("ENC", []), h.lines.get("DEC", [])
-    ctx.count(len(enc) + len(dec), [e for e in enc if "EOk" in e])
+    enc, dec, senc = h.lines.get("ENC", []), h.lines.get("DEC", []), h.lines.get("SENC", [])
+    ctx.count(len(enc) + len(dec) + len(senc), [e for e in enc + senc if "EOk" in e])
     found = False
     for f in h.fails[:3]:
         ctx.violation({"source": "direct Go oracle: decode(encode x) vs validated x", "failing": f})
@@ -77,7 +78,8 @@ def run(ctx):
             ctx.violation({"source": "direct Go oracle (unlisted finding %s)" % kid, "failing": js})
             found = True
     if ok:
-        for name, cases, ctype, chk in (("encoder", enc, "ecfg * list ifile * eobs", "check_enc"), ("decoder", dec, "bool * bool * bytes * ores", "check_dec")):
+        for name, cases, ctype, chk in (("encoder", enc, "ecfg * list ifile * eobs", "check_enc"), ("decoder", dec, "bool * bool * bytes * ores", "check_dec"),
+                                        ("stream encoder (accepts what encode_fit accepts, same bytes)", senc, "ecfg * list ifile * eobs", "check_senc")):
             bad, err = ctx.run_cases("Run.RunC01", ctype, cases, check=chk, shard=25)
             if err:
                 ctx.broken.append("correspondence (%s) could not be evaluated: %s" % (name, str(err)[:300]))
